@@ -17,9 +17,9 @@ does not matter — every cap and root prefix; the code's own constants are `cod
 (generated from the compiled package).  "Value" means the value's rendering by `AddAsString`
 (so `1`, `"1"` and `1.0` are the same value, as `TestDistinctValue_AddAsString` expects).
 
-`key_separates` does **not** hold for the code as it is: the value `""` is never written
-(`prevStr` starts as `""`), so `{"", "a"}` and `{"a"}` give the same key.  See
-`key_separates_refuted` / `key_separates_partial`.
+History: before commit a1a4703 the value `""` was never written (`prevStr` started as `""`), so
+`{"", "a"}` and `{"a"}` gave the same key and `KeySeparates` was refuted.  The repaired loop
+(`j == 0 || str != values[j-1]`) writes it, and `key_separates` below is the full statement.
 -/
 namespace Refinery.Props.C11
 open Refinery Refinery.Model.TraceKey
@@ -138,10 +138,6 @@ def Differ (pre : String) (x : Ext) (c : Cfg) (t₁ t₂ : Trace) : Prop :=
   (∃ f ∈ nonRootFields pre c, ¬ SameSet (fieldVals x.conv t₁.spans f) (fieldVals x.conv t₂.spans f)) ∨
   (∃ f ∈ rootFields pre c, rootVal x.fmtv t₁.root f ≠ rootVal x.fmtv t₂.root f)
 
-/-- no span carries a value that renders as the empty string in a (non-root) key field -/
-def NonEmptyVals (pre : String) (x : Ext) (c : Cfg) (t : Trace) : Prop :=
-  ∀ f ∈ nonRootFields pre c, "" ∉ fieldVals x.conv t.spans f
-
 /-- **key_separates, full statement**: traces whose fields are all present and differ in some
 field's value set (values free of the key delimiters) get different keys. -/
 def KeySeparates (cap : Nat) (pre : String) : Prop :=
@@ -149,29 +145,17 @@ def KeySeparates (cap : Nat) (pre : String) : Prop :=
     Admissible cap pre x c t₁ → Admissible cap pre x c t₂ → Differ pre x c t₁ t₂ →
     key cap pre x c t₁ ≠ key cap pre x c t₂
 
-/-! The witness: one key field `f`; trace 1 has spans with `f=""` and `f="a"`, trace 2 has
-`f="a"` twice.  Both keys are `a•,` (and `a•,2` with `UseTraceLength`). -/
+/-! The former counterexample: one key field `f`; trace 1 has spans with `f=""` and `f="a"`,
+trace 2 has `f="a"` twice.  The keys are now `•a•,2` and `a•,2`. -/
 def wx : Ext := ⟨fun v => v.raw, fun v => v.raw⟩
 def wc : Cfg := ⟨["f"], true⟩
 def wt₁ : Trace := ⟨[[("f", ⟨"s", ""⟩)], [("f", ⟨"s", "a"⟩)]], none⟩
 def wt₂ : Trace := ⟨[[("f", ⟨"s", "a"⟩)], [("f", ⟨"s", "a"⟩)]], none⟩
 
-example : key codeCap codePrefix wx wc wt₁ = "a•,2" := by decide
-example : key codeCap codePrefix wx wc wt₂ = "a•,2" := by decide
-
-theorem witness_admissible₁ : Admissible codeCap codePrefix wx wc wt₁ :=
+example : build codeCap codePrefix wx wc wt₁ = ("•a•,2", 3) := by decide
+example : build codeCap codePrefix wx wc wt₂ = ("a•,2", 2) := by decide
+example : Admissible codeCap codePrefix wx wc wt₁ :=
   ⟨by decide, by decide, by decide, by decide, by decide⟩
-theorem witness_admissible₂ : Admissible codeCap codePrefix wx wc wt₂ :=
-  ⟨by decide, by decide, by decide, by decide, by decide⟩
-
-/-- **key_separates is REFUTED** for the code as written: the value sets `{"", "a"}` and `{"a"}`
-of field `f` differ, all hypotheses hold, and the keys are equal. -/
-theorem key_separates_refuted : ¬ KeySeparates codeCap codePrefix := by
-  intro h
-  refine h wx wc wt₁ wt₂ witness_admissible₁ witness_admissible₂ ?_ (by decide)
-  refine Or.inl ⟨"f", by decide, fun hs => ?_⟩
-  have : "" ∈ fieldVals wx.conv wt₂.spans "f" := (hs "").mp (by decide)
-  revert this; decide
 
 theorem renderRoot_cons_some {fmtv : Val → String} {root : Option Span} {f s : String}
     (fs : List String) (h : rootVal fmtv root f = some s) :
@@ -191,7 +175,6 @@ theorem groups_inj {conv : Val → String} {s₁ s₂ : List Span} (fs : List St
     (hp₁ : ∀ f ∈ fs, fieldVals conv s₁ f ≠ []) (hp₂ : ∀ f ∈ fs, fieldVals conv s₂ f ≠ [])
     (hd₁ : ∀ f ∈ fs, ∀ s ∈ fieldVals conv s₁ f, DelimFree s)
     (hd₂ : ∀ f ∈ fs, ∀ s ∈ fieldVals conv s₂ f, DelimFree s)
-    (he₁ : ∀ f ∈ fs, "" ∉ fieldVals conv s₁ f) (he₂ : ∀ f ∈ fs, "" ∉ fieldVals conv s₂ f)
     (h : (renderGroups (fs.map (distinctVals conv s₁))).1.toList ++ X₁ =
          (renderGroups (fs.map (distinctVals conv s₂))).1.toList ++ X₂) :
     (∀ f ∈ fs, SameSet (fieldVals conv s₁ f) (fieldVals conv s₂ f)) ∧ X₁ = X₂ := by
@@ -199,26 +182,24 @@ theorem groups_inj {conv : Val → String} {s₁ s₂ : List Span} (fs : List St
   | nil => simpa [renderGroups] using h
   | cons f fs ih =>
     have hm := @List.mem_cons_self _ f fs
-    have chars : ∀ (sp : List Span), fieldVals conv sp f ≠ [] → "" ∉ fieldVals conv sp f →
+    have chars : ∀ (sp : List Span), fieldVals conv sp f ≠ [] →
         (renderGroup (distinctVals conv sp f)).1.toList =
           bullets (sortStr (distinctVals conv sp f)) ++ [','] := by
-      intro sp hne he
+      intro sp hne
       apply renderGroup_chars
       · intro e
         obtain ⟨a, ha⟩ := List.exists_mem_of_ne_nil _ hne
         have := (mem_distinctVals conv sp f a).mpr ha
         rw [e] at this; simp at this
       · exact distinctVals_nodup _ _ _
-      · rw [mem_distinctVals]; exact he
     simp only [List.map_cons, renderGroups, String.toList_append] at h
-    rw [chars s₁ (hp₁ f hm) (he₁ f hm), chars s₂ (hp₂ f hm) (he₂ f hm)] at h
+    rw [chars s₁ (hp₁ f hm), chars s₂ (hp₂ f hm)] at h
     simp only [List.append_assoc, List.singleton_append] at h
     have h1 := bullets_inj
       (fun s m => hd₁ f hm s (by rwa [mem_sortStr, mem_distinctVals] at m))
       (fun s m => hd₂ f hm s (by rwa [mem_sortStr, mem_distinctVals] at m)) h
     have h2 := ih (fun g hg => hp₁ g (List.mem_cons_of_mem _ hg)) (fun g hg => hp₂ g (List.mem_cons_of_mem _ hg))
-      (fun g hg => hd₁ g (List.mem_cons_of_mem _ hg)) (fun g hg => hd₂ g (List.mem_cons_of_mem _ hg))
-      (fun g hg => he₁ g (List.mem_cons_of_mem _ hg)) (fun g hg => he₂ g (List.mem_cons_of_mem _ hg)) h1.2
+      (fun g hg => hd₁ g (List.mem_cons_of_mem _ hg)) (fun g hg => hd₂ g (List.mem_cons_of_mem _ hg)) h1.2
     refine ⟨?_, h2.2⟩
     intro g hg
     rcases List.mem_cons.mp hg with rfl | hg
@@ -254,10 +235,9 @@ theorem root_inj {fmtv : Val → String} {r₁ r₂ : Option Span} (fs : List St
     · rw [ha, hb, String.toList_inj.mp h1.1]
     · exact h2.1 g hg
 
-/-- Equal keys of admissible traces without empty-string values ⇒ equal value sets. -/
+/-- Equal keys of admissible traces ⇒ equal value sets. -/
 theorem value_sets_of_key (cap : Nat) (pre : String) (x : Ext) (c : Cfg) (t₁ t₂ : Trace)
     (a₁ : Admissible cap pre x c t₁) (a₂ : Admissible cap pre x c t₂)
-    (e₁ : NonEmptyVals pre x c t₁) (e₂ : NonEmptyVals pre x c t₂)
     (h : key cap pre x c t₁ = key cap pre x c t₂) :
     (∀ f ∈ nonRootFields pre c, SameSet (fieldVals x.conv t₁.spans f) (fieldVals x.conv t₂.spans f)) ∧
     (∀ f ∈ rootFields pre c, rootVal x.fmtv t₁.root f = rootVal x.fmtv t₂.root f) := by
@@ -268,22 +248,23 @@ theorem value_sets_of_key (cap : Nat) (pre : String) (x : Ext) (c : Cfg) (t₁ t
   simp only [key, build] at h'
   rw [collect_below _ _ _ _ 0 (by omega), collect_below _ _ _ _ 0 (by omega)] at h'
   simp only [String.toList_append, List.append_assoc] at h'
-  have g := groups_inj (nonRootFields pre c) a₁.present a₂.present a₁.delimFree a₂.delimFree e₁ e₂ h'
+  have g := groups_inj (nonRootFields pre c) a₁.present a₂.present a₁.delimFree a₂.delimFree h'
   have r := root_inj (rootFields pre c) a₁.rootPresent a₂.rootPresent a₁.rootDelimFree a₂.rootDelimFree g.2
   exact ⟨g.1, r.1⟩
 
-/-- **key_separates_partial** — what does hold: if, in addition, no key-field value renders as the
-empty string, then traces whose fields are all present and differ in some field's value set get
-different keys. -/
-theorem key_separates_partial (cap : Nat) (pre : String) (x : Ext) (c : Cfg) (t₁ t₂ : Trace)
-    (a₁ : Admissible cap pre x c t₁) (a₂ : Admissible cap pre x c t₂)
-    (e₁ : NonEmptyVals pre x c t₁) (e₂ : NonEmptyVals pre x c t₂)
-    (hd : Differ pre x c t₁ t₂) : key cap pre x c t₁ ≠ key cap pre x c t₂ := by
-  intro h
-  have v := value_sets_of_key cap pre x c t₁ t₂ a₁ a₂ e₁ e₂ h
+/-- **key_separates** — the full statement, for every cap and root prefix (the code's included):
+traces whose fields are all present and differ in some field's value set (values free of the key
+delimiters `•` and `,`; the empty string allowed) get different keys while fewer than `cap`
+distinct values are involved. -/
+theorem key_separates (cap : Nat) (pre : String) : KeySeparates cap pre := by
+  intro x c t₁ t₂ a₁ a₂ hd h
+  have v := value_sets_of_key cap pre x c t₁ t₂ a₁ a₂ h
   rcases hd with ⟨f, hf, hne⟩ | ⟨f, hf, hne⟩
   · exact hne (v.1 f hf)
   · exact hne (v.2 f hf)
+
+/-- the former counterexample is separated now -/
+example : key codeCap codePrefix wx wc wt₁ ≠ key codeCap codePrefix wx wc wt₂ := by decide
 
 /-! ## rate floor and keep draw -/
 
